@@ -249,6 +249,14 @@ func runPanic(c *Ctx) {
 			}
 			key := name + "|" + core.TypeStr(ta.AssertedType)
 			why, listed := reviewedAsserts[key]
+			if !listed {
+				// a private step of a reviewed function: the review of the driver covers it
+				if drv := c.driverOf(f); drv != nil {
+					if w2, ok := reviewedAsserts[core.FuncName(drv)+"|"+core.TypeStr(ta.AssertedType)]; ok {
+						why, listed = w2+" (in a private step of "+core.FuncName(drv)+")", true
+					}
+				}
+			}
 			mech := ""
 			// mechanical: asserting the result of an in-target call whose every return boxes exactly that type
 			// (also through a parameter of an unexported helper, when every call site hands in such a result)
@@ -337,6 +345,32 @@ func (c *Ctx) boxesExactly(v ssa.Value, T types.Type, depth int) (string, bool) 
 		return fmt.Sprintf("parameter of %s: all %d call site(s) hand in a value boxed from exactly this type", core.FuncName(fn), len(sites)), true
 	}
 	return "", false
+}
+
+// driverOf: the function that alone reaches private helper f (through private helpers only), or nil.
+func (c *Ctx) driverOf(f *ssa.Function) *ssa.Function {
+	cur := f
+	for i := 0; i < 4; i++ {
+		if !c.P.PrivateHelper(cur) {
+			break
+		}
+		var caller *ssa.Function
+		for _, s := range c.P.Callers(cur) {
+			o := core.Outer(s.Parent())
+			if caller != nil && caller != o {
+				return nil
+			}
+			caller = o
+		}
+		if caller == nil {
+			return nil
+		}
+		cur = caller
+	}
+	if cur == f {
+		return nil
+	}
+	return cur
 }
 
 func keysOf(m map[int64]bool) []int64 {
